@@ -22,6 +22,7 @@ PAIRS = [
     (5, 0, "clock", "rd"), (6, 0, "clock", "r"), (7, 6, "clock", "rd"),
     (8, 0, "rerun", "rd"),
     (9, 1, "restore", "rd"), (10, 1, "restore", "rd"),
+    (21, 1, "restore", "rd"),        # a RUNNING replica installs the checkpoint of an earlier position and replays from there
     # entries of the cluster syncer (conflict pre-check when applied live)
     # rocksdb, log years before the node's clock: a forced full compaction at a random position vs none
     (19, 20, "compaction", "rdc"),
@@ -79,7 +80,7 @@ VIEW_TYPE = dict(get="k", getnil="k", ttl="k", pfc="k", hall="h", hlen="h", httl
                  sm="s", scard="s", sttl="s", zr="z", zcard="z", zttl="z", bitc="b", bttl="b", json="j")
 
 
-def untainted_view(L, o):
+def untainted_view(L, o, due_limit=None):
     """replies and dump restricted to the (type, key) pairs that never got a TTL in this log (local-deletion
     policy: a node may physically remove, on its own clock, exactly the values that are past their expiry;
     a value of ANOTHER type under the same key name is not one of them)."""
@@ -87,6 +88,16 @@ def untainted_view(L, o):
     tainted = set()
     for name, ks, args in rk:
         has_ex = name in TTL_CMDS or (name in ("set", "setifeq") and any(unh(x).lower() == b"ex" for x in args[3:]))
+        if has_ex and due_limit is not None:
+            # the log lies only ~100 s before the node's clock: a TTL of `due_limit` seconds or more is NOT due,
+            # such a value must survive the sweep like one without TTL
+            try:
+                dur = int(unh(args[2]).decode("latin1")) if name in TTL_CMDS else max(
+                    int(unh(args[i + 1]).decode("latin1")) for i in range(3, len(args) - 1) if unh(args[i]).lower() == b"ex")
+                if dur >= due_limit:
+                    has_ex = False
+            except Exception:
+                pass
         if has_ex:
             t = cmd_type(name)
             tainted.update((t, k) for k in ks)
@@ -195,8 +206,9 @@ def judge(logs, order, obs, pairs=None):
             st["by_dim"][dim] = st["by_dim"].get(dim, 0) + 1
             A, B = o[a], o[b]
             if what == "u":
-                ra, da = untainted_view(L, A)
-                rb, db = untainted_view(L, B)
+                recent = vs.get(a, "").split("\t")[4:5] == ["4"]      # shift index 4 = the recent past
+                ra, da = untainted_view(L, A, 60 if recent else None)
+                rb, db = untainted_view(L, B, 60 if recent else None)
                 if ra != rb:
                     i, x, y = first_diff(rb, ra)
                     fails.append(dict(log=lid, a=b, b=a, dim=dim, kind="replies",
@@ -204,6 +216,13 @@ def judge(logs, order, obs, pairs=None):
                 elif da != db:
                     fails.append(dict(log=lid, a=b, b=a, dim=dim, kind="dump", what="dumps differ on keys that never had a TTL"))
                 continue
+            if dim == "restore":
+                pfr = lambda d: " ".join(e for e in d.split(" || ") if e.startswith("pfr"))
+                if pfr(A["dump"]) != pfr(B["dump"]):
+                    fails.append(dict(log=lid, a=b, b=a, dim=dim, kind="pfr",
+                                      what="PFCOUNT after a final flush + restart differs on a key only PFADD ever touched: %s vs %s"
+                                           % (pfr(B["dump"]), pfr(A["dump"]))))
+                    continue
             if "c" in what and A["replies"] == B["replies"] and A["dump"] != B["dump"]:
                 # compaction dimension: user data first, the table key counters separately
                 strip = lambda d: " || ".join(e for e in d.split(" || ") if not e.startswith("cnt("))
@@ -241,6 +260,8 @@ def signature_of(dim, kind, shrunk_names, policy, observed=None):
     """The input class of a (shrunk) failing case. Two classes have a canonical name because the same
     cause shows up with many different victim commands; everything else is dimension + the commands left."""
     names = set(shrunk_names)
+    if dim == "restore" and kind == "pfr":
+        return "restore/pfr: " + "+".join(sorted(names))
     if dim == "restore" and "pfadd" in names:
         return SIG_HLL
     if dim == "syncer-replay":
@@ -557,7 +578,16 @@ def run(ctx):
             fails, st = [], dict(stats, by_dim={})
             for lid in order:
                 vids = list(logs[lid]["vars"].keys())
-                pl = [(v, vids[0], dim_of(logs[lid]["vars"][vids[0]], logs[lid]["vars"][v]), "rd") for v in vids[1:]]
+                def base_of(v):
+                    fv = logs[lid]["vars"][v].split("\t")
+                    for w in vids:
+                        if w == v:
+                            break
+                        fw = logs[lid]["vars"][w].split("\t")
+                        if fw[4:7] == fv[4:7] and fw[8:] == fv[8:]:
+                            return w
+                    return vids[0]
+                pl = [(v, base_of(v), dim_of(logs[lid]["vars"][base_of(v)], logs[lid]["vars"][v]), "rd") for v in vids[1:]]
                 pl = [(a_, b_, d_, "rdc" if d_ == "compaction" else ("u" if d_ == "localexpiry" else w_)) for a_, b_, d_, w_ in pl]
                 f1, s1 = judge(logs, [lid], obs, pairs=pl)
                 fails += f1
